@@ -248,6 +248,28 @@ pub fn c13(g: &mut Gen) {
         let net = one_param_net(0.5, 0.01);
         g.push(format!("net {} learn 1 {} 0 1 {} 0", net.token(), sample, e), Tol::Tight, "no-validation", true);
     }
+    // scale-free comparison: rises and falls of one unit in the last place, rises of tiny and of huge magnitude,
+    // infinities (a rise is `>` on the recorded values, whatever their size)
+    let up = |v: f32, k: u32| f32::from_bits(v.to_bits() + k);
+    let fine: Vec<Vec<f32>> = vec![
+        vec![0.3, up(0.3, 1), up(0.3, 2), up(0.3, 3), up(0.3, 4), up(0.3, 5)],
+        vec![0.3, up(0.3, 1), up(0.3, 1), up(0.3, 2), up(0.3, 3), up(0.3, 4)],
+        vec![up(0.3, 5), up(0.3, 4), up(0.3, 3), up(0.3, 4), up(0.3, 5), up(0.3, 6)],
+        vec![1e-8, 2e-8, 3e-8, 4e-8, 5e-8, 6e-8],
+        vec![1e-30, 2e-30, 3e-30, 2e-30, 3e-30, 4e-30],
+        vec![f32::from_bits(1), f32::from_bits(2), f32::from_bits(3), f32::from_bits(4), f32::from_bits(5), f32::from_bits(6)],
+        vec![1e30, 2e30, 3e30, 4e30, 5e30, 6e30],
+        vec![1.0, 2.0, f32::INFINITY, f32::INFINITY, f32::INFINITY, f32::INFINITY],
+        vec![0.0, -0.0, 0.0, 1e-45, 2e-45, 3e-45],
+    ];
+    for s in &fine {
+        for t in 1..=4 {
+            for e in [6usize, 10] {
+                let net = one_param_net(0.5, 0.01);
+                g.push(format!("net {} learn 1 {} 1 1 {} {} 1 {} {} {}", net.token(), sample, sample, t, e, s.len(), q1(s)), Tol::Tight, &format!("fine-rises/T{}", t), true);
+            }
+        }
+    }
     // hook-free family: the error contracts (lr < 1) or expands (lr > 1) by |1 - 2 lr| per epoch, or oscillates around a plateau
     for lr in [0.1f32, 0.4, 0.5, 0.9, 1.0, 1.05, 1.2, 1.5] {
         for t in 1..=3 {
@@ -492,6 +514,18 @@ pub fn c11(g: &mut Gen) {
                     }
                 }
             }
+        }
+    }
+    // blocks whose convolution has stride != dilation (shape-preserving dilated convolutions): the block must be built
+    // with the described geometry (stride, padding and dilation each in its own place)
+    for (h, w, k, p, d) in [(3usize, 3usize, (3usize, 3usize), (2usize, 2usize), (2usize, 2usize)), (5, 4, (3, 3), (2, 2), (2, 2)),
+                            (5, 4, (3, 1), (2, 0), (2, 1)), (4, 6, (1, 3), (0, 3), (1, 3))] {
+        for (loops, i, o, acc) in [(2usize, false, false, "add"), (3, true, true, "add"), (2, true, false, "mean")] {
+            let c = InnerSpec::Conv { filters: 1, act: "tanh".into(), k, s: (1, 1), p, d, dropout: None, ks: vec![weights(g, &Shape::Triple(1, k.0, k.1), 0.5)] };
+            let net = NetSpec { input: Shape::Triple(1, h, w), builds: vec![Build::Feedback { inner: vec![c], loops, inskips: i, outskips: o, acc: acc.into() }],
+                skipacc: "add".into(), loopacc: "mean".into(), opt: None, obj: "mse".into(), clamp: None };
+            let x = input_for(g, &net.input);
+            g.push(format!("net {} predict {}", net.token(), qt(&x)), Tol::Tight, &format!("dilated-block/{}x{}/L{}", h, w, loops), true);
         }
     }
     // a block whose output shape differs from its input shape is refused; zero loops are refused
